@@ -42,7 +42,11 @@
      is a field (SSetAttr: objects are values, the containers along the path are rebuilt).
    - set(e) / tuple(e) of a list or tuple (ESetOf / ETupleOf): the distinct elements in order of first occurrence as a
      VSet (hashable scalars only, else Err 96) / the same elements as a VTuple.  == on sets is NOT modelled (py_eq
-     is false on two VSet): the translator admits set(e) only in slices without ==, !=, in, .index, for (pytrans.py). *)
+     is false on two VSet): the translator admits set(e) only in slices without ==, !=, in, .index, for (pytrans.py).
+   - dict(zip(a, b)) (EDictZip): the pairs are entered left to right, a repeated key keeps its first position and takes
+     the LAST value (dict_zip; keys are hashable scalars, else Err 96); `k in d` for a dict d asks the keys;
+     Counter(a).items() (ECountItems): the (key, count) pairs in order of first occurrence, as a list of tuples (the
+     translator lets such a value only be iterated over or measured with len). *)
 From HV Require Import Prelude.
 From Coq Require Import String QArith Qabs.
 From Coq Require DecimalString DecimalZ Ascii.
@@ -187,6 +191,29 @@ Definition set_add (l : list val) (v : val) : list val :=
    modelled: a VSet is only asked for membership, its length and its truth value) *)
 Definition set_of (l : list val) : list val := fold_left set_add l [].
 
+(* d[k] = v on an association list: a key that is already there keeps its position *)
+Fixpoint dict_put (d : list (val * val)) (k v : val) : list (val * val) :=
+  match d with
+  | [] => [(k, v)]
+  | (k', w) :: r => if py_eq k' k then (k', v) :: r else (k', w) :: dict_put r k v
+  end.
+
+(* dict(zip(ks, vs)) entered into d: as many pairs as the shorter sequence has, left to right *)
+Fixpoint dict_zip (ks vs : list val) (d : list (val * val)) : list (val * val) :=
+  match ks, vs with
+  | k :: kr, v :: vr => dict_zip kr vr (dict_put d k v)
+  | _, _ => d
+  end.
+
+(* Counter(l): how often each element occurs, keys in order of first occurrence *)
+Fixpoint count_bump (d : list (val * Z)) (k : val) : list (val * Z) :=
+  match d with
+  | [] => [(k, 1)]
+  | (k', c) :: r => if py_eq k' k then (k', c + 1) :: r else (k', c) :: count_bump r k
+  end.
+Definition count_pairs (l : list val) : list (val * Z) := fold_left count_bump l [].
+Definition count_items (l : list val) : list val := map (fun p => VTuple [fst p; VInt (snd p)]) (count_pairs l).
+
 Inductive binop := Add | Sub | Mul | FloorDiv | Mod.
 Inductive cmpop := CEq | CNe | CLt | CLe | CGt | CGe.
 
@@ -227,7 +254,9 @@ Inductive expr :=
 | EFmt (parts : list expr)                (* an f-string without format specs: each part evaluated and turned into text,
                                              left to right *)
 | ESetOf (a : expr)                       (* set(a) for a list / tuple of hashable scalars (or a set): its distinct elements *)
-| ETupleOf (a : expr).                    (* tuple(a) for a list / tuple: the same elements *)
+| ETupleOf (a : expr)                     (* tuple(a) for a list / tuple: the same elements *)
+| EDictZip (a b : expr)                   (* dict(zip(a, b)) for two lists / tuples, the keys hashable scalars *)
+| ECountItems (a : expr).                 (* Counter(a).items() for a list / tuple of hashable scalars: (key, count) pairs *)
 
 Inductive lval := LVar (x : string) | LIdx (x : string) (i : expr).
 
@@ -634,6 +663,8 @@ Section Interp.
               | VText _, _ => Err 4
               | VSet vs, _ =>
                   if hashable xv then Ok (VBool (xorb neg (existsb (fun y => py_eq y xv) vs))) else Err E_Unsupported
+              | VDict d, _ =>
+                  if hashable xv then Ok (VBool (xorb neg (existsb (fun p => py_eq (fst p) xv) d))) else Err E_Unsupported
               | _, _ => Err E_Unsupported
               end
           | Some vs => Ok (VBool (xorb neg (existsb (fun y => py_eq y xv) vs)))
@@ -680,6 +711,18 @@ Section Interp.
         bind (eval a en) (fun x =>
           match as_seq x with
           | Some l => Ok (VTuple l)
+          | None => Err E_Unsupported
+          end)
+    | EDictZip a b =>
+        bind (eval a en) (fun x => bind (eval b en) (fun y =>
+          match as_seq x, as_seq y with
+          | Some ks, Some vs => if forallb hashable ks then Ok (VDict (dict_zip ks vs [])) else Err E_Unsupported
+          | _, _ => Err E_Unsupported
+          end))
+    | ECountItems a =>
+        bind (eval a en) (fun x =>
+          match as_seq x with
+          | Some l => if forallb hashable l then Ok (VList (count_items l)) else Err E_Unsupported
           | None => Err E_Unsupported
           end)
     end.
